@@ -34,9 +34,7 @@ SymTabBad(R, cls, rt) == LET S == SymTabNamed(R, rt.secname) IN      \* "" or th
                "[" \o ToString(j - 1) \o "]" \o (IF t.names[j] # rt.syms[j].name THEN ".name" ELSE ".field")
 SymTabOK(R, cls, rt) == SymTabBad(R, cls, rt) = ""
 
-Verdict(b, ref) ==
-  IF ~HasIdent(b) THEN "NotElf" ELSE
-  LET R == Report(b)  cls == ClsOf(b) IN
+Verdict(R, cls, ref) ==
   IF R.ident # ref.ident THEN "ident"
   ELSE IF ~FieldsOK(EhdrL(cls), R.eh, ref.eh) THEN "Ehdr." \o FirstBadField(EhdrL(cls), R.eh, ref.eh, 1)
   ELSE IF Len(R.ph) # Len(ref.ph) THEN "Phdr.count"
@@ -70,7 +68,7 @@ Next == /\ ~done /\ done' = TRUE /\ UNCHANGED tid
         /\ LET f == Files[tid]  b == f.bytes IN
            IF ~HasIdent(b) THEN PrintT(ToJson([t |-> f.t, verdict |-> "NotElf"]))
            ELSE LET R == Report(b)  Q == SeqOfSet(QueryAddrs(R)) IN
-                PrintT(ToJson([t |-> f.t, verdict |-> Verdict(b, f.ref), cls |-> ClsOf(b), ord |-> OrdOf(b),
+                PrintT(ToJson([t |-> f.t, verdict |-> Verdict(R, ClsOf(b), f.ref), cls |-> ClsOf(b), ord |-> OrdOf(b),
                                expect |-> R, queries |-> Tup([k \in 1..Len(Q) |-> Query(R, Q[k])])]))
 Spec == Init /\ [][Next]_vars
 =============================================================================
